@@ -114,6 +114,19 @@ theorem binds_from_import {s : VState} {n : Node} {p m : Str} {asn : Option Str}
   have h2 : n.isKind "ImportFrom" = true := isKind_of_kind hk
   simp [VState.update, h1, h2, hm, hn, Aliases.resolve, Aliases.get?]
 
+/-- **the later binding of a name is the one in force**: whatever was visited before — an earlier import of the same local name included — after
+`import m as a` the name `a` denotes `m` (seeded change C14-m17 kept the FIRST binding of a name: `import json as m; import os as m; m.system(c)`) -/
+theorem later_import_binding_wins {s : VState} {earlier n : Node} {m a : Str}
+    (hk : n.isKind "Import" = true) (hn : importNames n = [(m, some a)]) (ha : a ≠ []) :
+    ((s.update earlier).update n).aliases.resolve a = m :=
+  binds_import_as (s := s.update earlier) hk hn ha
+
+/-- … likewise for `from p import m [as a]` after any earlier statement -/
+theorem later_from_import_binding_wins {s : VState} {earlier n : Node} {p m : Str} {asn : Option Str}
+    (hk : n.kind = "ImportFrom".toList) (hm : importModule? n = some p) (hn : importNames n = [(m, asn)]) :
+    ((s.update earlier).update n).aliases.resolve ((asnameSet asn).getD m) = p ++ '.' :: m :=
+  binds_from_import (s := s.update earlier) hk hm hn
+
 /-- `__import__("m")`: the looked-up name is the literal -/
 theorem dunder_import_name (e : Env) (c : CallView) (a : Node) (rest : List Node) (m : Str)
     (hf : c.func.nameId? = some "__import__".toList) (hargs : c.args = a :: rest) (ha : a.strConst? = some m) :
